@@ -158,3 +158,10 @@ Proof.
   intros O B u. split; [apply gen_host_ok|]. split; [apply gen_authority_ok|]. apply gen_name_suffix_ok.
 Qed.
 Print Assumptions C06_source_host_name_suffix.
+
+(** ... and scheme, raw_authority, is_absolute() *)
+From Yarl Require Import Proofs.GenSmallProofs.
+Theorem C06_source_scheme_authority_absolute : forall (u : url),
+  gen_scheme u = u_scheme u /\ gen_raw_authority u = u_netloc u /\ gen_is_absolute u = absolute u.
+Proof. intros u. split; [apply gen_scheme_ok|split; [apply gen_raw_authority_ok|apply gen_is_absolute_ok]]. Qed.
+Print Assumptions C06_source_scheme_authority_absolute.
